@@ -9,9 +9,17 @@
 (*               (eff: create | delete | modify)                             *)
 (*   disclosed = <<loc>> every planted location whose content, name or       *)
 (*               metadata token occurs in the reply (and not in the request) *)
+(*   resolved  = <<loc>> every planted location on whose EXISTENCE the reply  *)
+(*               depends: the same request with the names of the value bound *)
+(*               to fresh names (nothing there) was answered differently     *)
+(*               (status / error code / number of listed entries).  Only     *)
+(*               recorded where the order of the two values relative to      *)
+(*               every stored name is the same (a dot or empty segment       *)
+(*               precedes the first name)                                    *)
 (* A line is accepted iff every change lies in the storage of the object the *)
 (* request names (AllowedEffect) and every disclosure is in its read scope   *)
-(* (ReadAllowed).  The status is not judged: a refusal changes and reveals   *)
+(* (ReadAllowed), and a value that is not well-formed was not resolved at    *)
+(* all ("refused or treated as opaque names, never resolved").  The status is not judged: a refusal changes and reveals   *)
 (* nothing.  Rejected line numbers and, per line, the contradicted rule      *)
 (* instances "<effect>:<target class>" are written to verdict.ndjson.        *)
 EXTENDS Confine, Json
@@ -20,8 +28,10 @@ Trace == ndJsonDeserialize("trace.ndjson")
 
 BadChanges(e) == {i \in DOMAIN e.changed : ~AllowedEffect(e.kind, e.b, e.changed[i].loc, e.changed[i].eff)}
 BadReads(e)   == {i \in DOMAIN e.disclosed : ~ReadAllowed(e.kind, e.route, e.b, e.disclosed[i])}
+BadResolves(e) == IF WF(e.kind, e.b) THEN {} ELSE DOMAIN e.resolved
 Classes(e) == {e.changed[i].eff \o ":" \o Region(e.changed[i].loc) : i \in BadChanges(e)}
               \cup {"read:" \o Region(e.disclosed[i]) : i \in BadReads(e)}
+              \cup {"resolve:" \o Region(e.resolved[i]) : i \in BadResolves(e)}
 
 RECURSIVE JoinSeq(_)
 JoinSeq(s) == IF s = <<>> THEN "" ELSE IF Len(s) = 1 THEN s[1] ELSE s[1] \o "," \o JoinSeq(Tail(s))
